@@ -9,8 +9,12 @@
 // running name and Stop of a stopped name are no-ops, failed calls have no
 // effect, the engine dies with the process. It reads the GVK of every watch it
 // is asked to start (reflection on engine.Watch) so that the trace says which
-// version a controller really watches. Go only records; every verdict is taken
-// by spec/MonXrdLifecycle.tla.
+// version a controller really watches. ONE definition.Reconciler and ONE
+// offered.Reconciler object live for the whole scenario (warm-up, every
+// reconcile, the teardown inside a "recreate" step and the life of the
+// re-created XRD), so anything they remembered of an earlier incarnation of the
+// XRD would show. Go only records; every verdict is taken by
+// spec/MonXrdLifecycle.tla.
 package main
 
 import (
@@ -463,17 +467,21 @@ func firstNonEmpty(a, b string) string {
 }
 
 // ---- world construction
-func xrdObject(claim bool) *v1.CompositeResourceDefinition {
-	xrd := &v1.CompositeResourceDefinition{ObjectMeta: metav1.ObjectMeta{Name: xrdName}}
+// xrdObject is a new XRD (generation 1, no uid yet) with the given referenceable version, schema variant and claim names.
+func xrdObject(claim bool, ver string, sv int) *v1.CompositeResourceDefinition {
+	xrd := &v1.CompositeResourceDefinition{ObjectMeta: metav1.ObjectMeta{Name: xrdName, Generation: 1}}
 	xrd.Spec.Group = "ex.org"
 	xrd.Spec.Names = extv1.CustomResourceDefinitionNames{Kind: "XThing", Plural: "xthings", Singular: "xthing", ListKind: "XThingList"}
 	if claim {
 		xrd.Spec.ClaimNames = claimNames()
 	}
 	raw := []byte(`{"type":"object","properties":{"spec":{"type":"object","properties":{"size":{"type":"string"}}}}}`)
+	if sv == 1 {
+		raw = []byte(`{"type":"object","properties":{"spec":{"type":"object","properties":{"extra":{"type":"string"},"size":{"type":"string"}}}}}`)
+	}
 	xrd.Spec.Versions = []v1.CompositeResourceDefinitionVersion{
-		{Name: "v1", Served: true, Referenceable: true, Schema: &v1.CompositeResourceValidation{OpenAPIV3Schema: runtime.RawExtension{Raw: raw}}},
-		{Name: "v2", Served: true, Referenceable: false, Schema: &v1.CompositeResourceValidation{OpenAPIV3Schema: runtime.RawExtension{Raw: raw}}},
+		{Name: "v1", Served: true, Referenceable: ver == "v1", Schema: &v1.CompositeResourceValidation{OpenAPIV3Schema: runtime.RawExtension{Raw: raw}}},
+		{Name: "v2", Served: true, Referenceable: ver == "v2", Schema: &v1.CompositeResourceValidation{OpenAPIV3Schema: runtime.RawExtension{Raw: raw}}},
 	}
 	return xrd
 }
@@ -495,7 +503,7 @@ func newWorld(tw *trace.Writer, id, state string, claim bool, crdx, variant stri
 	s := simapi.NewServer(sch)
 	w := &world{s: s, tw: tw, scen: id, actors: map[string]*actor{}, run: map[string]bool{"x": false, "c": false},
 		wver: map[string]string{"x": "none", "c": "none"}, variant: variant, driftBy: map[string]int{}, cache: map[string]cached{}}
-	xrd := xrdObject(claim)
+	xrd := xrdObject(claim, "v1", 0)
 	xu := s.Put(xrd)
 	xrd.SetUID(xu.GetUID())
 	if crdx == "foreign" || crdx == "free" {
@@ -580,6 +588,42 @@ func (w *world) establish(side string) {
 	w.s.Mutate(crdKey[side], func(u *unstructured.Unstructured) { _ = unstructured.SetNestedSlice(u.Object, established(), "status", "conditions") })
 }
 
+// recreate: the user deletes the XRD, the SAME long-lived reconcilers run their deletion branches to the end
+// (unrecorded, ungated: that path is module Teardown's), Kubernetes lets deleted CRDs go, and the user creates an XRD
+// of the same name with another spec: a new object with a new uid and generation 1. spec = "<ver>:<s>:<claim|noclaim>".
+func (w *world) recreate(spec string) bool {
+	f := strings.Split(spec, ":")
+	if len(f) != 3 {
+		panic("bad recreate step " + spec)
+	}
+	w.warm = true
+	defer func() { w.warm = false }()
+	w.s.MarkDeleted(xrdKey)
+	for round := 0; round < 8 && w.s.Peek(xrdKey) != nil; round++ {
+		for _, n := range actors {
+			a := w.actors[n]
+			a.c.BeginReconcile()
+			_, _ = a.rec()
+		}
+		for _, k := range crdKey {
+			w.s.Mutate(k, func(u *unstructured.Unstructured) {
+				if u.GetDeletionTimestamp() != nil {
+					u.SetFinalizers(nil)
+				}
+			})
+		}
+	}
+	if w.s.Peek(xrdKey) != nil {
+		return false
+	}
+	sv := 0
+	if f[1] == "1" {
+		sv = 1
+	}
+	w.s.Put(xrdObject(f[2] == "claim", f[0], sv))
+	return true
+}
+
 // ---- environment
 func (w *world) env(k string) {
 	for _, a := range w.actors {
@@ -600,6 +644,7 @@ func (w *world) env(k string) {
 				vm["referenceable"] = !r
 			}
 			_ = unstructured.SetNestedSlice(u.Object, vs, "spec", "versions")
+			u.SetGeneration(u.GetGeneration() + 1)
 		})
 	case "s":
 		w.s.Mutate(xrdKey, func(u *unstructured.Unstructured) {
@@ -613,13 +658,22 @@ func (w *world) env(k string) {
 				}
 			}
 			_ = unstructured.SetNestedSlice(u.Object, vs, "spec", "versions")
+			u.SetGeneration(u.GetGeneration() + 1)
 		})
 	case "claimOn":
 		w.s.Mutate(xrdKey, func(u *unstructured.Unstructured) {
 			_ = unstructured.SetNestedMap(u.Object, map[string]any{"kind": "Thing", "plural": "things", "singular": "thing", "listKind": "ThingList"}, "spec", "claimNames")
+			u.SetGeneration(u.GetGeneration() + 1)
 		})
 	case "claimOff":
-		w.s.Mutate(xrdKey, func(u *unstructured.Unstructured) { unstructured.RemoveNestedField(u.Object, "spec", "claimNames") })
+		w.s.Mutate(xrdKey, func(u *unstructured.Unstructured) {
+			unstructured.RemoveNestedField(u.Object, "spec", "claimNames")
+			u.SetGeneration(u.GetGeneration() + 1)
+		})
+	case "recreate":
+		if !w.recreate(side) {
+			w.noteDrift("recreate-stuck")
+		}
 	case "xrddel":
 		w.s.MarkDeleted(xrdKey)
 	case "est":
